@@ -82,9 +82,9 @@ package http2
 //@   requires isData(wr) ==> dataOf(wr) != nil && wr.stream != nil && wr.stream.sc != nil && wr.stream.flow.conn != wr.stream.flow
 //@   assigns wr.stream.flow.n, wr.stream.flow.conn.n
 //@   ensures [C20:non-data-whole] !isData(wr) || len(old(dataOf(wr).p)) == 0 ==> num == 1 && consumed == wr && wr.stream.flow.n == old(wr.stream.flow.n)
-//@   ensures [C12:blocked-takes-nothing] isData(wr) && len(old(dataOf(wr).p)) > 0 && old(allowedFor(wr, n)) <= 0 ==> num == 0 && wr.stream.flow.n == old(wr.stream.flow.n) && (wr.stream.flow.conn != nil ==> wr.stream.flow.conn.n == old(wr.stream.flow.conn.n))
-//@   ensures [C12:split-within-window] isData(wr) && old(allowedFor(wr, n)) > 0 && len(old(dataOf(wr).p)) > old(allowedFor(wr, n)) ==> num == 2 && isData(consumed) && isData(rest) && dataOf(consumed).p == old(dataOf(wr).p)[:old(allowedFor(wr, n))] && dataOf(rest).p == old(dataOf(wr).p)[old(allowedFor(wr, n)):] && wr.stream.flow.n == old(wr.stream.flow.n) - old(allowedFor(wr, n))
+//@   ensures [C12,C20:blocked-takes-nothing] isData(wr) && len(old(dataOf(wr).p)) > 0 && old(allowedFor(wr, n)) <= 0 ==> num == 0 && wr.stream.flow.n == old(wr.stream.flow.n) && (wr.stream.flow.conn != nil ==> wr.stream.flow.conn.n == old(wr.stream.flow.conn.n))
+//@   ensures [C12,C20:split-within-window] isData(wr) && old(allowedFor(wr, n)) > 0 && len(old(dataOf(wr).p)) > old(allowedFor(wr, n)) ==> num == 2 && isData(consumed) && isData(rest) && dataOf(consumed).p == old(dataOf(wr).p)[:old(allowedFor(wr, n))] && dataOf(rest).p == old(dataOf(wr).p)[old(allowedFor(wr, n)):] && wr.stream.flow.n == old(wr.stream.flow.n) - old(allowedFor(wr, n))
 //@   ensures [C20:split-keeps-stream-and-end] num == 2 ==> consumed.stream == wr.stream && rest.stream == wr.stream && !dataOf(consumed).endStream && dataOf(rest).endStream == old(dataOf(wr).endStream) && dataOf(consumed).streamID == old(dataOf(wr).streamID) && dataOf(rest).streamID == old(dataOf(wr).streamID) && rest.done == wr.done
-//@   ensures [C12:whole-within-window] isData(wr) && len(old(dataOf(wr).p)) > 0 && old(allowedFor(wr, n)) > 0 && len(old(dataOf(wr).p)) <= old(allowedFor(wr, n)) ==> num == 1 && consumed == wr && wr.stream.flow.n == old(wr.stream.flow.n) - len(old(dataOf(wr).p))
+//@   ensures [C12,C20:whole-within-window] isData(wr) && len(old(dataOf(wr).p)) > 0 && old(allowedFor(wr, n)) > 0 && len(old(dataOf(wr).p)) <= old(allowedFor(wr, n)) ==> num == 1 && consumed == wr && wr.stream.flow.n == old(wr.stream.flow.n) - len(old(dataOf(wr).p))
 //@   ensures [C20:pieces-well-formed] wfReq(wr) ==> (num >= 1 ==> wfReq(consumed)) && (num == 2 ==> wfReq(rest))
-//@   ensures [C12:conn-window-follows] wr.stream != nil && wr.stream.flow.conn != nil ==> wr.stream.flow.conn.n - old(wr.stream.flow.conn.n) == wr.stream.flow.n - old(wr.stream.flow.n)
+//@   ensures [C12,C20:conn-window-follows] wr.stream != nil && wr.stream.flow.conn != nil ==> wr.stream.flow.conn.n - old(wr.stream.flow.conn.n) == wr.stream.flow.n - old(wr.stream.flow.n)
